@@ -1408,3 +1408,46 @@ M("c17_dyn_reserve_without_restore_revert", ["C17"], ["C17.R8"], [
                 Ok(())""", """                let _ = checkpoint;
                 Ok(())""")])
 
+# ---------------------------------------------------------------- rules added after the second seeding round
+M("c08_keep_rest_tail_offset_without_head", ["C08", "C06"], ["C08.R7", "C06.R8"], [
+    ("src/owned_slice/drain.rs", """                    let dst = start_ptr.add(unyielded_len);""", """                    let dst = slice_ptr.add(start).add(this.iter.len() + 1);""")])
+M("c08_from_uninit_forgets_zst_capacity", ["C08"], ["C08.R4"], [
+    ("src/fixed_bump_vec.rs", """        let capacity = if T::IS_ZST { usize::MAX } else { uninitialized.len() };""", """        let capacity = uninitialized.len();""")])
+M("c16_box_slice_split_off_rotates_prefix_in_else_arm", ["C16", "C09"], ["C16.R4", "C09.R8"], [
+    ("src/bump_box.rs", """                self.as_mut_slice().get_unchecked_mut(start..).rotate_left(range_len);""",
+     """                self.as_mut_slice().get_unchecked_mut(..end).rotate_left(range_len);""")])
+M("c16_merge_zst_other_not_consumed", ["C16", "C06"], ["C16.R5", "C06.R9"], [
+    ("src/bump_box.rs", """            let _ = self.into_raw();
+            let _ = other.into_raw();
+""", """            let _ = self.into_raw();
+""")])
+M("c09_try_cstr_whole_input_when_last_byte_is_nul", ["C09"], ["C09.R4"], [
+    ("src/traits/bump_allocator_typed_scope.rs", """    fn try_alloc_cstr_from_str(&self, src: &str) -> Result<&'a CStr, AllocError> {
+        let src = src.as_bytes();
+""", """    fn try_alloc_cstr_from_str(&self, src: &str) -> Result<&'a CStr, AllocError> {
+        let src = src.as_bytes();
+
+        if src.last() == Some(&0) {
+            return self.try_alloc_cstr(unsafe { CStr::from_bytes_with_nul_unchecked(src) });
+        }
+""")])
+M("c07_fixed_string_reserve_plain_add", ["C07"], ["C07.R5"], [
+    ("src/fixed_bump_vec.rs", """        if additional > (self.capacity() - self.len()) {""", """        if additional + self.len() > self.capacity() {""")])
+M("c18_by_value_copies_before_make_allocated", ["C18", "C10", "C05"], ["C18.R5", "C10.R6", "C05.R7"], [
+    ("src/bump_scope.rs", """        panic_on_error(self.raw.make_allocated());
+
+        BumpScope {
+            raw: self.raw.clone(),
+            marker: PhantomData,
+        }""", """        let raw = self.raw.clone();
+        panic_on_error(self.raw.make_allocated());
+
+        BumpScope {
+            raw,
+            marker: PhantomData,
+        }""")])
+M("c10_try_with_down_arm_rounds_up", ["C10", "C01", "C02"], ["C10.R1d", "C01.R12", "C02.R7"], [
+    ("src/bump_scope.rs", """                            let pos = value.addr().get();
+                            down_align_usize(pos, S::MIN_ALIGN)""", """                            let pos = value.addr().get();
+                            up_align_usize_unchecked(pos, S::MIN_ALIGN)""")])
+
